@@ -391,6 +391,14 @@ func (mem *CListMempool) resCbFirstTime(
 				return
 			}
 
+			// The cache normally filters re-submissions, but it can have evicted a transaction
+			// that is still in the pool (cache smaller than its working set, or disabled):
+			// never add a transaction twice.
+			if e, ok := mem.txsMap.Load(types.Tx(tx).Key()); ok {
+				e.(*clist.CElement).Value.(*mempoolTx).senders.LoadOrStore(peerID, true)
+				return
+			}
+
 			memTx := &mempoolTx{
 				height:    mem.height,
 				gasWanted: r.CheckTx.GasWanted,
